@@ -152,15 +152,24 @@ Canon(e) == CASE e.kind \in {"tcp", "udp"} -> e.host \o ":" \o ToString(e.port)
 HasValue(e) == e.kind # "rtlsdr" \/ e.hashost
 
 Q == "\""
-\* table forms of the same endpoint: the short form for every kind, and the long form
-\* { address, port } for tcp.  An rtlsdr entry without device has no table form (TOML has
-\* no null).
+\* table forms of the same endpoint (source.rs: AddressPath / WebsocketPath are a string or
+\* a table): the short form for every kind; for tcp the long form { address, port } and for
+\* websocket the long form { url }, each also with a `jump` host (the ssh gateway through
+\* which the SAME endpoint is reached: it is not part of the endpoint, so the serial must
+\* not depend on it).  An rtlsdr entry without device has no table form (TOML has no null).
+Jumps == <<"user@gateway", "other@bastion.example.org">>
+TcpLong(e, extra) == "tcp = { address = " \o Q \o e.host \o Q \o ", port = " \o ToString(e.port)
+                     \o extra \o " }"
+WsLong(e, extra) == "websocket = { url = " \o Q \o Canon(e) \o Q \o extra \o " }"
+JumpField(j) == ", jump = " \o Q \o j \o Q
 TableForms(e) ==
   IF ~HasValue(e) THEN <<>>
   ELSE <<e.kind \o " = " \o Q \o Canon(e) \o Q>> \o
-       (IF e.kind = "tcp"
-        THEN <<"tcp = { address = " \o Q \o e.host \o Q \o ", port = " \o ToString(e.port) \o " }">>
-        ELSE <<>>)
+       (CASE e.kind = "tcp" ->
+               <<TcpLong(e, ""), TcpLong(e, JumpField(Jumps[1])), TcpLong(e, JumpField(Jumps[2]))>>
+          [] e.kind = "websocket" ->
+               <<WsLong(e, ""), WsLong(e, JumpField(Jumps[1])), WsLong(e, JumpField(Jumps[2]))>>
+          [] OTHER -> <<>>)
 
 \* reference: "none", the airport with that ICAO code (coordinates are a data binding),
 \* or the numbers themselves
@@ -200,11 +209,12 @@ WFCanon == { <<Kind(q), Canon(Endpoint(q)), Endpoint(q)>> : q \in WFParts }
 CanonInjective ==
   LET wc == WFCanon IN
   \A t \in wc, u \in wc : (t[1] = u[1] /\ t[2] = u[2]) => t[3] = u[3]
-\* every well-formed endpoint with a value has a short table form, tcp also a long one
+\* every well-formed endpoint with a value has a short table form, tcp and websocket also
+\* three long ones (without jump host, with two different jump hosts)
 TableFormsShape(p) ==
   WellFormed(p) =>
     LET e == Endpoint(p) IN
-    Len(TableForms(e)) = (IF ~HasValue(e) THEN 0 ELSE IF e.kind = "tcp" THEN 2 ELSE 1)
+    Len(TableForms(e)) = (IF ~HasValue(e) THEN 0 ELSE IF e.kind \in {"tcp", "websocket"} THEN 4 ELSE 1)
 \* anchors: the strings of the documentation
 Anchors ==
   LET ps == Parts IN
@@ -215,6 +225,10 @@ Anchors ==
   /\ \E p \in ps : WellFormed(p) /\ Render(p) = "ws://localhost:80/get?51.470000,-0.461000"
                       /\ Canon(Endpoint(p)) = "ws://localhost:80/get"
   /\ \E p \in ps : WellFormed(p) /\ Render(p) = "rtlsdr://"
+  /\ \E p \in ps : WellFormed(p) /\ Render(p) = "tcp://localhost:1"
+        /\ TableForms(Endpoint(p))[3] = "tcp = { address = \"localhost\", port = 1, jump = \"user@gateway\" }"
+  /\ \E p \in ps : WellFormed(p) /\ Render(p) = "ws://localhost:1/get"
+        /\ TableForms(Endpoint(p))[4] = "websocket = { url = \"ws://localhost:1/get\", jump = \"other@bastion.example.org\" }"
   /\ \E p \in ps : ~WellFormed(p) /\ Render(p) = "192.168.0.20:1"
   /\ \E p \in ps : ~WellFormed(p) /\ Render(p) = ":abc"
   /\ \E p \in ps : ~WellFormed(p) /\ Render(p) = "udp://localhost"
